@@ -25,6 +25,7 @@ type entry struct {
 	ID      uint64
 	Epoch   uint64
 	Payload []byte
+	Poison  bool // not encodable: MarshalCBOR emits the headers and half of the payload, then fails
 }
 
 func (e *entry) WALEpoch() uint64 { return e.Epoch }
@@ -41,6 +42,12 @@ func (e *entry) MarshalCBOR(w io.Writer) error {
 	}
 	if err := cw.WriteMajorTypeHeader(cbg.MajByteString, uint64(len(e.Payload))); err != nil {
 		return err
+	}
+	if e.Poison {
+		if _, err := cw.Write(e.Payload[:len(e.Payload)/2]); err != nil {
+			return err
+		}
+		return fmt.Errorf("value cannot be encoded")
 	}
 	_, err := cw.Write(e.Payload)
 	return err
@@ -161,6 +168,21 @@ func (h *hist) appendEntry(epoch uint64, size int) {
 	h.sizes[id] = size
 	h.r.emit(ev{"ev": "Append", "id": id, "epoch": epoch, "size": grew, "file": file, "ok": err == nil})
 	h.last.id, h.last.file, h.last.bytes, h.last.valid = id, file, grew, err == nil
+}
+
+// rejectEntry appends a value whose encoder fails half way: the call must be refused and must leave no trace in the log.
+func (h *hist) rejectEntry(epoch uint64, size int) {
+	_, before := listWal(h.dir)
+	err := h.wal.Append(entry{ID: 1 << 40, Epoch: epoch, Payload: payload(1<<40, size), Poison: true})
+	names, _ := listWal(h.dir)
+	file := ""
+	for _, n := range names {
+		if _, ok := before[n]; !ok {
+			file = n
+		}
+	}
+	h.r.emit(ev{"ev": "Append", "id": 0, "epoch": epoch, "size": 0, "file": file, "ok": err == nil, "rejected": true})
+	h.last.valid = false
 }
 
 func (h *hist) all() {
@@ -285,6 +307,10 @@ func TestWALHistories(t *testing.T) {
 				size := 8 + rng.Intn(300)
 				if big && rng.Intn(3) == 0 {
 					size = 200_000 + rng.Intn(400_000)
+				}
+				if rng.Intn(8) == 0 {
+					h.rejectEntry(uint64(rng.Intn(5)), size)
+					continue
 				}
 				h.appendEntry(uint64(rng.Intn(5)), size)
 				if forksLeft > 0 && rng.Intn(4) == 0 && h.last.valid {
